@@ -159,6 +159,7 @@ type Verifier struct {
 	Opts      Options
 	// candidate invariants that failed and are therefore not used (Houdini)
 	disabledAuto map[string]bool
+	knownNames   map[string]bool
 }
 
 type Options struct {
@@ -177,7 +178,7 @@ type Options struct {
 
 func newVerifier(p *Program, cs *ContractSet, o Options) *Verifier {
 	return &Verifier{P: p, CS: cs, fieldIDs: map[string]int{}, fieldName: map[int]string{}, typeTags: map[string]int{},
-		tagType: map[int]types.Type{}, globals: map[string]int{}, Opts: o, disabledAuto: map[string]bool{}}
+		tagType: map[int]types.Type{}, globals: map[string]int{}, Opts: o, disabledAuto: map[string]bool{}, knownNames: knownFindingNames()}
 }
 
 func (v *Verifier) fieldID(st types.Type, idx int) int {
@@ -761,4 +762,14 @@ func hasTypeSet(it *types.Interface) bool {
 		}
 	}
 	return false
+}
+
+func knownFindingNames() map[string]bool {
+	out := map[string]bool{}
+	for _, k := range loadKnownFindings() {
+		if k.Status == "known" {
+			out[k.Obligation] = true
+		}
+	}
+	return out
 }
